@@ -247,7 +247,8 @@ def run_check(prop, tier="quick", seed=0, nruns=None, workers=None, wall_cap=Non
             continue
         done_keys.add(key)
         nviol += 1
-        case = r.get("case")
+        case = v.get("replay_case") or r.get("case")
+        v = {k: x for k, x in v.items() if k != "replay_case"}
         if case is None:
             print(f"HARNESS-ERROR: violating run {idx} has no case attached")
             rc = 2
